@@ -251,8 +251,9 @@ pub fn pool(tier: Tier, seed: u64, thin: usize) -> Vec<Family> {
         }
     }));
     // F4: long keys
-    fams.push(fam("long-keys", 8, seed, |i, rng| {
-        let lens = [1usize, 255, 256, 257, 4096, 70_000, 70_000, 1000];
+    fams.push(fam("long-keys", 16, seed, |i, rng| {
+        // around the code's initial capacities (16-byte key buffer, 64-entry stacks/slots) and the u8/u16 boundaries
+        let lens = [1usize, 255, 256, 257, 4096, 70_000, 70_000, 1000, 15, 16, 17, 63, 64, 65, 127, 129];
         let l = lens[i % lens.len()];
         let alpha = alphabet(rng);
         let a = rng.bytes(l, &alpha);
@@ -269,6 +270,15 @@ pub fn pool(tier: Tier, seed: u64, thin: usize) -> Vec<Family> {
         keys.sort();
         keys.dedup();
         (keys, [0, 4, 1, 5, 2, 3, 7, 6][i % 8])
+    }));
+    // F4b: two keys whose root needs 4-byte address deltas: one short key emitted first, then a 17 MB long key, so the
+    // root (emitted last) points > 2^24 bytes back. Cheap way to reach delta width 4 without millions of keys.
+    fams.push(fam("huge-delta", tier.pick(1, 2), seed, |i, rng| {
+        let mut long = vec![b'b'];
+        let n = (1usize << 24) + 4096 + rng.usize(1000);
+        long.extend((0..n).map(|j| if j % 4093 == 0 { 0xffu8 } else { b'c' }));
+        let keys = vec![vec![b'a', b'z'], long, vec![b'c']];
+        (keys, [5usize, 0][i % 2])
     }));
     // F5: corpora
     {
